@@ -148,6 +148,16 @@ Step(S, ev) ==
          LET E2 == FnDel(E, W.doomed) IN
          [S |-> put(E2, [W EXCEPT !.doomed = {}]), f |-> cmp(E2, "C15", "maintain")]
     [] ev.op = "AMaintain" -> [S |-> S, f |-> cmp(E, "C15", "allocator maintain")]
+    [] ev.op = "Retrieve" ->   \* MarkerAllocator::retrieve_entity called directly (the creation path of deserialisation)
+         LET cs == Carrier(E, ev.m)
+             E2 == IF cs # {} THEN E ELSE FnSet(E, ev.res, <<<<ev.m>>, None, None, None>>)
+         IN [S |-> put(E2, [W EXCEPT !.issued = @ \cup {ev.res}]),
+             f |-> (IF cs # {} /\ ev.res \notin cs
+                    THEN {F("C15", "a live entity carries the marker, yet retrieval returned another entity (returned, carriers)", <<ev.res, cs>>)} ELSE {})
+              \cup (IF cs = {} /\ ev.res \in W.issued
+                    THEN {F(p, "no live entity carries the marker, yet retrieval returned a handle that had been returned before instead of a new entity", <<ev.m, ev.res>>)
+                          : p \in {"C01", "C14"}} ELSE {})
+              \cup cmp(E2, "C15", "retrieve")]
     [] ev.op = "Save" ->
          LET marked == Marked(E)
              order == SortedById(marked)
